@@ -17,7 +17,7 @@ LEAN = os.path.join(ROOT, "lean")
 TIE_DIR = os.path.join(LEAN, "CkcVerif", "Tie")
 PINS = os.path.join(ROOT, "tools", "tie_pins.json")
 STATUS = os.path.join(ROOT, "build", "src_status.json")
-MODULES = ["Five", "Card", "Hand", "SixSeven", "Misc", "Containers"]
+MODULES = ["Five", "Card", "Hand", "SixSeven", "Misc", "Containers", "Text", "TwoCard", "Rank", "Source", "Source2", "Source3"]
 MARK = "/-! ## axiom audit (written by tools/tie.py --audit) -/"
 
 
@@ -103,6 +103,19 @@ def main():
                    "files_outside_functions": st.get("files_outside_functions", {}),
                    "theorems": proved}, open(PINS, "w"), indent=1, sort_keys=True)
         print("pinned %d functions, %d tie theorems" % (len(st["functions"]), len(proved)))
+        return 0
+    if a == ["--table"]:
+        st = status()
+        fns = st["functions"]
+        tm = tie_map(fns)
+        print("| function | file | translated | tie theorem(s) |")
+        print("|---|---|---|---|")
+        for f, v in sorted(fns.items(), key=lambda kv: (kv[1].get("file") or "", kv[0])):
+            ths = ", ".join("`Tie.%s`" % t for _, t in tm.get(f, []))
+            tr = "yes" if v["translated"] else "no: " + (v["reason"] or "")[:70]
+            print("| `%s` | %s | %s | %s |" % (f, (v.get("file") or "").replace("src/", ""), tr, ths or "—"))
+        n = len(fns)
+        print("\n%d function instances; %d translated; %d with a tie theorem." % (n, sum(1 for v in fns.values() if v["translated"]), sum(1 for f in fns if f in tm)))
         return 0
     ch, rm = changed_functions()
     for f in ch:
